@@ -164,8 +164,52 @@ func (e *Engine) Verify(name string) (*VC, error) {
 	if base != name {
 		vc.Variant = name[len(base):]
 	}
+	if len(spec.Foreach) > 0 {
+		// expand per-field postconditions from the struct type as it is NOW
+		ns := *spec
+		ns.Ensures = append([]*Clause{}, spec.Ensures...)
+		tenv := &Env{vc: vc, vars: map[string]Val{}, fn: fn}
+		for _, fe := range spec.Foreach {
+			t := vc.resolveType(tenv, fe.Type)
+			st, ok := (types.Type)(nil), false
+			var sst *types.Struct
+			if t != nil {
+				sst, ok = t.Underlying().(*types.Struct)
+			}
+			_ = st
+			if !ok {
+				return nil, fmt.Errorf("%s:%d: foreach_field: %s is not a struct type", fe.File, fe.Line, fe.Type)
+			}
+			skip := map[string]bool{}
+			for _, e := range fe.Except {
+				skip[e] = true
+			}
+			for i := 0; i < sst.NumFields(); i++ {
+				fl := sst.Field(i)
+				b, isBasic := fl.Type().Underlying().(*types.Basic)
+				if !isBasic || b.Info()&types.IsInteger == 0 || skip[fl.Name()] {
+					continue
+				}
+				txt := strings.ReplaceAll(fe.Template, "$f", fl.Name())
+				// $wrap(e): e reduced to the field's type when it is unsigned (machine wrap-around), e itself otherwise
+				if b.Info()&types.IsUnsigned != 0 {
+					txt = strings.ReplaceAll(txt, "$wrap(", b.Name()+"(")
+				} else {
+					txt = strings.ReplaceAll(txt, "$wrap(", "(")
+				}
+				ex, err := ParseSpecExpr(txt)
+				if err != nil {
+					return nil, fmt.Errorf("%s:%d: foreach_field template: %v", fe.File, fe.Line, err)
+				}
+				ns.Ensures = append(ns.Ensures, &Clause{Kind: "ensures", Text: txt + "   [generated for field " + fl.Name() + "]", Expr: ex, Line: fe.Line, File: fe.File, Idx: len(ns.Ensures) + 1, Tag: "field." + fl.Name()})
+			}
+		}
+		spec = &ns
+		vc.Spec = spec
+	}
 	st := &State{H: map[string]string{}, Top: "top_0"}
 	vc.declare("top_0", "Int")
+	vc.assert("(>= top_0 1000000)")
 	for _, s := range HeapSorts {
 		st.H[s] = "H_" + s + "_0"
 		vc.declare(st.H[s], "(Array Loc "+s+")")
@@ -226,7 +270,11 @@ func (e *Engine) Verify(name string) (*VC, error) {
 		penv.setResults(fn, res)
 		for _, c := range spec.Ensures {
 			t := vc.evalSpec(penv, c.Expr)
-			o := vc.oblige("ensures", fmt.Sprintf("%d@ret%d", c.Idx, ri+1), r.guard, t.T, fmt.Sprintf("%s:%d", strings.TrimPrefix(c.File, "/repo/"), c.Line), c.Text)
+			anchor := fmt.Sprint(c.Idx)
+			if c.Tag != "" {
+				anchor = c.Tag
+			}
+			o := vc.oblige("ensures", fmt.Sprintf("%s@ret%d", anchor, ri+1), r.guard, t.T, fmt.Sprintf("%s:%d", strings.TrimPrefix(c.File, "/repo/"), c.Line), c.Text)
 			_ = o
 		}
 		if spec.HasAssign {
